@@ -41,6 +41,15 @@ def cases(ctx):
         yield Case(f'script_commit_then {toks_str(toks)} {toks_str(toks2)}', 'ms', nontrivial=True, tag='commit-then',
                    model=lambda ans, t=toks: (f'm:script_commit {toks_str(t)}', ans),
                    spec=lambda ans, t=toks: (f's:script_commit {toks_str(t)}', ans))
+    # an address keeps committing to the script it was created from, whatever happens to that Script object (or to the
+    # list the caller built it from) afterwards
+    for _ in range(ctx.n(30, 1000)):
+        toks = G.script_tokens(rng, names, 6, big=False) or ['OP_1']
+        extra = G.script_tokens(rng, names, 3, big=False) or ['OP_DROP']
+        ctx.count('address-then-mutate')
+        yield Case(f'addr_then_mutate {toks_str(toks)} {toks_str(extra)}', 'ms', nontrivial=True, tag='addr-then-mutate',
+                   model=lambda ans, t=toks: (f'm:script_commit {toks_str(t)}', ans),
+                   spec=lambda ans, t=toks: (f's:script_commit {toks_str(t)}', ans))
     # redeem / witness scripts that themselves look like the standard templates (hash locks, nested P2SH, ...)
     shaped = []
     for _ in range(ctx.n(6, 200)):
@@ -100,6 +109,17 @@ def impl(op, a, ctx):
         b = [o.to_bytes() for o in held]
         if b[0] != b[2] or b[1] != b[3]: return 'ok helper-and-address-disagree'
         return f'ok {a1.to_hash160()} {a2.to_witness_program()} {hx(b[2])} {hx(b[3])}'
+    if op == 'addr_then_mutate':
+        setup('testnet')
+        lst = F.toks(); s = Script(lst); extra = F.toks()
+        a1 = P2shAddress(script=s); a2 = P2wshAddress(script=s)
+        strs = (a1.to_string(), a2.to_string())
+        lst.extend(extra)
+        if s.get_script() is not lst: s.get_script().extend(extra)
+        if hasattr(s, 'script') and s.script is not lst and s.script is not s.get_script(): s.script.extend(extra)
+        b1 = a1.to_script_pub_key().to_bytes(); b2 = a2.to_script_pub_key().to_bytes()
+        if (a1.to_string(), a2.to_string()) != strs: return 'ok address-string-changed'
+        return f'ok {a1.to_hash160()} {a2.to_witness_program()} {hx(b1)} {hx(b2)}'
     if op in ('script_commit', 'script_commit_after'):
         setup('testnet')
         s = Script(F.toks())
